@@ -12,7 +12,7 @@ import docgen as D
 from common import REPO, Str, sx
 
 ID = 'C15'
-LEAN_MODULES = ['Cellml.Props.C15', 'Cellml.Tie.ConnLoop', 'Cellml.Tie.LoaderConsts', 'Cellml.Tie.GraphBuild']
+LEAN_MODULES = ['Cellml.Props.C15', 'Cellml.Tie.ConnLoop', 'Cellml.Tie.LoaderConsts', 'Cellml.Tie.GraphBuild', 'Cellml.Props.C15Gen']
 N = {'quick': 10, 'thorough': 60}
 SEEDS = {'quick': 8, 'thorough': 64}
 RULE = ('cases = every file of tests/cellml_files (the four big models a case each, the small ones sharing their '
